@@ -88,6 +88,12 @@ def small_universe(rng, nkeys=6, ndata=5, hostile=True, sizes=None):
     prog = {"keys": {}, "blobs": {}, "steps": []}
     for i in range(nkeys):
         add_key(prog, rand_key(rng, i) if hostile else "key-%d-%d" % (i, rng.randrange(10 ** 6)))
+    if hostile and nkeys >= 3 and rng.random() < 0.5:
+        # ... and keys whose buckets are neighbours: same index sub-directory (first 16 bits of the
+        # SHA-1 equal) or same first-level directory (8 bits) - what is done to one key's bucket
+        # must not reach the files next to it
+        for ks in sibling_keys(rng, 2, rng.choice([16, 16, 8])):
+            add_key(prog, ks)
     ids = []
     for i in range(ndata):
         if sizes:
@@ -188,6 +194,21 @@ def observe_all(prog, rng, lanes, keys, addrs=(), with_list=True, read=True):
                               "variant": rng.choice(["", "index_ls"])})
 
 
+def sibling_keys(rng, n=2, bits=16):
+    """n distinct keys whose SHA-1 digests share their first `bits` bits: their buckets are
+    different files in the SAME index sub-directory (8 bits: same first-level directory)"""
+    seen = {}
+    base = "sib-%d-" % rng.randrange(10 ** 6)
+    i = 0
+    while True:
+        ks = base + str(i)
+        i += 1
+        pre = hashlib.sha1(ks.encode()).hexdigest()[:bits // 4]
+        seen.setdefault(pre, []).append(ks)
+        if len(seen[pre]) >= n:
+            return seen[pre]
+
+
 def history_program(rng, length, lanes=ALL_LANES, nkeys=6, ndata=5, removal_weight=0.2,
                     bulk=False, observe_every=1, full_opts=False, algos=("sha256",), plant=False,
                     stray=False, garbage=False, rootlink=False):
@@ -251,8 +272,13 @@ def history_program(rng, length, lanes=ALL_LANES, nkeys=6, ndata=5, removal_weig
         elif r >= 0.93 and garbage:
             # a line that is no record (torn, foreign, not UTF-8, checksummed junk) ends up in the
             # key's bucket between two operations: later records must still be found
-            prog["steps"].append({"op": "env_bucket", "key": k, "mode": "insert_line", "index": 10 ** 6,
-                                  "bytes": rng.choice(GARBAGE_LINES).hex()})
+            if rng.random() < 0.35:
+                # ... or a junk line that makes the bucket exactly a multiple of a buffer size long
+                prog["steps"].append({"op": "env_bucket", "key": k, "mode": "pad_to",
+                                      "multiple": rng.choice([4096, 8192, 65536])})
+            else:
+                prog["steps"].append({"op": "env_bucket", "key": k, "mode": "insert_line", "index": 10 ** 6,
+                                      "bytes": rng.choice(GARBAGE_LINES).hex()})
         elif r >= 0.90 and stray:
             # a file that is no key's bucket appears inside the index tree (desktop metadata, an
             # NFS leftover, a note someone dropped there), next to or above this key's bucket
@@ -537,8 +563,18 @@ def commit_program(rng, ncases, lanes=ALL_LANES, big=False, algos=("sha256", "sh
         if key:
             prog["steps"].append({"op": "metadata", "lane": rng.choice(lanes), "key": key})
         ch = rng.choice(chunkings(rng, n, big))
-        prog["steps"] += write_steps(rng, prog, lane, d, n, algo, key, "opts", ch, opts, alias="w%d" % c,
-                                     explicit_algo=not noalgo)
+        ws_ = write_steps(rng, prog, lane, d, n, algo, key, "opts", ch, opts, alias="w%d" % c,
+                          explicit_algo=not noalgo)
+        if sk == "right" and not big and rng.random() < 0.5:
+            # the declared content is ALREADY stored when the writer is opened, and is removed (by
+            # address, or with everything else) before the writer commits: the commit stores it
+            # again, or fails - it does not report an entry whose content is gone
+            prog["steps"].append({"op": "write", "lane": rng.choice(lanes), "data": d, "algo": algo})
+            ws_.insert(rng.choice([1, len(ws_) - 1]),
+                       rng.choice([{"op": "remove_hash", "lane": rng.choice(lanes), "sri": [{"a": algo, "d": d}]},
+                                   {"op": "remove_hash", "lane": rng.choice(lanes), "sri": [{"a": algo, "d": d}]},
+                                   {"op": "clear", "lane": rng.choice(lanes)}]))
+        prog["steps"] += ws_
         if key:
             prog["steps"].append({"op": "metadata", "lane": rng.choice(lanes), "key": key})
             prog["steps"].append({"op": "read", "lane": rng.choice(lanes), "key": key})
@@ -767,11 +803,24 @@ def retrieve_program(rng, rounds, lanes=ALL_LANES, big=False, algos=ALGOS, exhau
             first = {"op": "extract", "lane": rng.choice(lanes), "kind": "hard_link", "checked": rng.random() < 0.5, "to": x}
             first.update({"key": k} if rng.random() < 0.5 else {"sri": sri})
             own = [first]
-            if n > 0 and rng.random() < 0.5:
-                own.append(dict(rng.choice([{"mode": "flip", "bit": rng.randrange(n * 8)},
-                                            {"mode": "cut", "len": rng.randrange(0, n)},
-                                            {"mode": "extend", "extra": "00ff"}]),
-                                op="env_content", algo=a, blob=d, inplace=True))
+            aged = rng.random() < 0.4
+            if aged:
+                # the content has been lying there for hours (and was verified once already) ...
+                own = [{"op": "env_raw", "action": "age_all"},
+                       dict({"op": "extract", "lane": first["lane"], "kind": "copy", "checked": True, "to": x + "v"},
+                            **({"key": k} if "key" in first else {"sri": sri})), first]
+            if n > 0 and rng.random() < (0.8 if aged else 0.5):
+                # ... and is then damaged IN PLACE; for aged content with its old modification time
+                # restored (bit rot does not touch time stamps): nothing may vouch for the bytes
+                # but the bytes
+                dm_ = dict(rng.choice([{"mode": "flip", "bit": rng.randrange(n * 8)},
+                                       {"mode": "cut", "len": rng.randrange(0, n)},
+                                       {"mode": "extend", "extra": "00ff"}]),
+                           op="env_content", algo=a, blob=d, inplace=True)
+                if aged:
+                    dm_ = dict({"mode": "flip", "bit": rng.randrange(n * 8)}, op="env_content", algo=a, blob=d,
+                               inplace=True, keep_mtime=True)
+                own.append(dm_)
             for _ in range(rng.choice([1, 2])):
                 second = {"op": "extract", "lane": rng.choice(lanes), "kind": rng.choice(["copy", "copy", "hard_link", "reflink"]),
                           "checked": rng.random() < 0.6, "to": x}
@@ -804,8 +853,14 @@ def retrieve_program(rng, rounds, lanes=ALL_LANES, big=False, algos=ALGOS, exhau
         if big or exhaustive is not None:
             which = rng.sample(["read_k", "read_h", "reader_k", "reader_h", "copy", "hard_link", "reflink"], 3)
         prog["steps"] += retrieval_steps(rng, prog, lanes, k, a, d, xc, which, big=big, size=n)
-        # heal: re-writing the same data replaces whatever is at the address
-        prog["steps"].append({"op": "write", "lane": rng.choice(lanes), "key": k, "data": d, "algo": a})
+        # heal: re-writing the same data - by key or by address alone - replaces whatever is at the
+        # address (and the healed entry reads back)
+        if rng.random() < 0.5:
+            prog["steps"].append({"op": "write", "lane": rng.choice(lanes), "key": k, "data": d, "algo": a})
+        else:
+            prog["steps"].append({"op": "write", "lane": rng.choice(lanes), "data": d, "algo": a})
+        if rng.random() < 0.5:
+            prog["steps"].append({"op": "read", "lane": rng.choice(lanes), "key": k})
         if dmg is not None and dmg.get("mode") == "swap":
             o = dmg["other"]
             prog["steps"].append({"op": "write", "lane": rng.choice(lanes), "data": o["blob"], "algo": o["algo"]})
@@ -870,6 +925,8 @@ def small_exhaustive_program(rng, n, algo, lanes=ALL_LANES):
         which = rng.sample(["read_k", "read_h", "reader_k", "reader_h", "copy", "hard_link", "reflink"], 3)
         prog["steps"] += retrieval_steps(rng, prog, lanes, k, algo, d, xc, which, dest_exists_p=0.1)
         prog["steps"].append({"op": "write", "lane": rng.choice(lanes), "data": d, "algo": algo})
+        if r % 7 == 0 or r == total - 1:
+            prog["steps"].append({"op": "read", "lane": rng.choice(lanes), "key": k})     # healed
     del prog["_pre"]
     return prog
 
@@ -1166,6 +1223,8 @@ def index_damage_program(rng, lanes=ALL_LANES, nrec=3, flips="sample", cuts="all
             dmgs.append({"mode": "hash_field", "index": i, "keep": [a_, b_], "pad": ""})
         for pad in ("00", "ab" * 32, " "):
             dmgs.append({"mode": "hash_field", "index": i, "keep": [0, 64], "pad": pad})
+    for m_ in (512, 4096, 8192, 65536, 131072):
+        dmgs.append({"mode": "pad_to", "multiple": m_})
     for i in range(nrec):
         dmgs.append({"mode": "dup_line", "index": i})
         dmgs.append({"mode": "drop_nl", "index": i})
@@ -1451,9 +1510,14 @@ def removal_combo_programs(rng, lanes=ALL_LANES, lanes_per_combo=2):
         for r2 in kinds:
             for lane2 in rng.sample(list(lanes), lanes_per_combo):
                 prog = {"keys": {}, "blobs": {}, "steps": []}
-                a = add_key(prog, rand_key(rng, 0))
-                b = add_key(prog, rand_key(rng, 1))
-                c = add_key(prog, rand_key(rng, 2))
+                if rng.random() < 0.5:
+                    a = add_key(prog, rand_key(rng, 0))
+                    b = add_key(prog, rand_key(rng, 1))
+                    c = add_key(prog, rand_key(rng, 2))
+                else:
+                    # the key that is removed and its neighbours: buckets in the same index
+                    # sub-directory (the first 16 bits of their SHA-1 agree)
+                    a, b, c = [add_key(prog, ks) for ks in sibling_keys(rng, 3, 16)]
                 d = _mk_data(prog, rng, rng.choice([1, 30, 900]))
                 e = _mk_data(prog, rng, 11)
                 keys = [a, b, c]
